@@ -12,8 +12,45 @@ check("C01", "exploration",
       SIM + "2-party protocol simulation with seeded peer policy, device-side reassembly oracle",
       "DESIGN.md 4/C01", "manager-world")
 
-for _p in ["C02", "C03", "C04", "C05", "C06", "C07", "C08", "C09", "C10", "C11", "C12", "C13",
-           "C15", "C17", "C18", "C19"]:
+check("C04", "fault_enumeration",
+      "One outcome injected at one step of one command's device exchange: status word (quick: every "
+      "status named in the firmware headers + range boundaries + seeded others; thorough: all 65 536 "
+      "at every step kind), time-out before/after processing, write error, read error before/after, "
+      "unexpected opcode. Reply checked against the documented code set, the success clauses, the "
+      "mandatory code of named causes and 'an in-range status never stops the manager'. Exhaustive "
+      "in the status-word dimension only (thorough tier), sampled over request contents and policies.",
+      "Step kinds come from a fault-free dry run under a fixed request per command; mandatory codes "
+      "are demanded only for causes the documentation names at steps where the firmware raises them; "
+      "truncated answers are outside the property.",
+      SIM + "fault enumeration at every exchange step against a reference table built from firmware headers and docs",
+      "DESIGN.md 4/C04", "manager-world")
+
+check("C05", "exploration",
+      "Seeded search over advanceBlockchain / updateAncestorBlock requests (headers from an independent "
+      "RLP encoder, coinbase transactions compressed with an independent SHA-256 core) x device policies "
+      "(chunk sizes, per-header early/late termination, brothers asked or not, stop after k blocks, "
+      "partial/total). The Signer model compares count, order, metadata, header bytes, brother count/order "
+      "as they arrive; reply must be 0/1 exactly as the device reported.",
+      "Device model implements op sequencing and chunk discipline from bc_advance.c / bc_ancestor.c, not "
+      "block validation; headers are canonical RLP; brothers pairwise distinct.",
+      SIM + "2-party protocol simulation with seeded peer policy, device-side reassembly oracle",
+      "DESIGN.md 4/C05", "manager-world")
+
+check("C13", "exploration",
+      "Seeded device states queried through the real stack (getPubKey x6, blockchainState, "
+      "blockchainParameters, signerHeartbeat) and one uiHeartbeat mode walk whose USB re-enumeration "
+      "delays (virtual clock), post-exit modes and link-death kinds are drawn; every reply field compared "
+      "with the datum the firmware-derived model holds; success of uiHeartbeat only with the device back "
+      "in its starting mode.",
+      "A heartbeat starting in UI-heartbeat mode is judged by 'ends where it started'; numbers compared "
+      "as unsigned integers whatever their JSON form.",
+      SIM + "2-party simulation with virtual clock and simulated USB re-enumeration, verbatim oracle",
+      "DESIGN.md 4/C13", "manager-world")
+
+for _p in ["C02", "C03", "C06", "C07", "C08", "C09", "C10", "C11", "C12", "C15", "C17", "C18",
+           "C19"]:
+    if _p in CHECKS:
+        continue
     NA[_p] = "check under construction in this session (designed in DESIGN.md section 4); not yet claimed"
 NA["C14"] = ("pure function of the transaction bytes (no schedule, clock, fault, peer latitude or "
              "history), and the library it rests on (python-bitcoinlib) is absent from the sandbox; "
